@@ -82,12 +82,14 @@ func first(err error) string {
 }
 
 type world struct {
-	rts      []wazero.Runtime
-	cache    wazero.CompilationCache
-	ctx      context.Context
-	compiled map[string]wazero.CompiledModule
-	cur      *instRun // instance whose call currently runs (for the host function)
-	sched    bool     // host function yields to the scheduler
+	rts       []wazero.Runtime
+	cache     wazero.CompilationCache
+	ctx       context.Context
+	compiled  map[string]wazero.CompiledModule
+	sharedLog *os.File // non-nil: every instance of this world writes its stderr here
+	files     []*os.File
+	cur       *instRun // instance whose call currently runs (for the host function)
+	sched     bool     // host function yields to the scheduler
 }
 
 func newRuntime(engine string, cache wazero.CompilationCache, w *world) wazero.Runtime {
@@ -131,6 +133,18 @@ func newRuntime(engine string, cache wazero.CompilationCache, w *world) wazero.R
 
 func (w *world) instantiate(rt wazero.Runtime, bin []byte, root string, idx int) *instRun {
 	in := &instRun{stdout: &bytes.Buffer{}, resume: make(chan struct{}), parked: make(chan struct{})}
+	// stderr: a host *os.File (a log file).  Together, the instances may share ONE such file, the way
+	// an embedder hands the same log to every instance; closing or exiting one instance must not take
+	// the stream away from the others.
+	stderr := w.sharedLog
+	if stderr == nil {
+		f, err := os.CreateTemp(root, "log-*")
+		if err != nil {
+			panic(err)
+		}
+		w.files = append(w.files, f)
+		stderr = f
+	}
 	in.dir = filepath.Join(root, fmt.Sprintf("i%d", idx))
 	os.MkdirAll(in.dir, 0o755)
 	// one CompiledModule per (runtime, binary): instances of the SAME compiled module
@@ -147,7 +161,7 @@ func (w *world) instantiate(rt wazero.Runtime, bin []byte, root string, idx int)
 		}
 		w.compiled[key] = cm
 	}
-	mod, err := rt.InstantiateModule(w.ctx, cm, wazero.NewModuleConfig().WithName("").WithStdout(in.stdout).
+	mod, err := rt.InstantiateModule(w.ctx, cm, wazero.NewModuleConfig().WithName("").WithStdout(in.stdout).WithStderr(stderr).
 		WithFSConfig(wazero.NewFSConfig().WithDirMount(in.dir, "/")).WithArgs(fmt.Sprintf("inst%d", idx)))
 	if err != nil {
 		panic(fmt.Sprintf("harness: instantiate: %v", err))
@@ -234,7 +248,22 @@ func (c11) Run(t *tape.Tape, cfg sim.Config) (res sim.Result) {
 	defer os.RemoveAll(root)
 
 	// ---- together
+	os.MkdirAll(filepath.Join(root, "multi"), 0o755)
+	os.MkdirAll(filepath.Join(root, "lone"), 0o755)
 	w := &world{ctx: ctx, sched: true}
+	if t.Chance(1, 2) {
+		f, err := os.CreateTemp(root, "shared-log-*")
+		if err != nil {
+			panic(err)
+		}
+		w.sharedLog = f
+		defer f.Close()
+	}
+	defer func() {
+		for _, f := range w.files {
+			f.Close()
+		}
+	}()
 	if cfg.Class == "two-runtimes-shared-cache" {
 		w.cache = wazero.NewCompilationCache()
 		w.rts = []wazero.Runtime{newRuntime(cfg.Engine, w.cache, w), newRuntime(cfg.Engine, w.cache, w)}
@@ -293,6 +322,11 @@ func (c11) Run(t *tape.Tape, cfg sim.Config) (res sim.Result) {
 	// ---- alone: each instance in a fresh runtime, same calls, sequentially
 	for i := 0; i < n; i++ {
 		lw := &world{ctx: ctx}
+		defer func() {
+			for _, f := range lw.files {
+				f.Close()
+			}
+		}()
 		rt := newRuntime(cfg.Engine, nil, lw)
 		in := lw.instantiate(rt, bins[which[i]], filepath.Join(root, "lone"), i)
 		in.calls = ncalls[i]
